@@ -247,6 +247,22 @@ func checkC17File(c c17File) *core.Failure {
 		if err != nil {
 			return nil // harness-made key must parse; treat as trivial
 		}
+		// the same file read through the directory import: a generate-all run must find and keep this key
+		ent := core.Entity{File: "e.yaml", Subject: []core.RDN{{Key: "CN", Value: "file"}}}
+		if want.Kind == "rsa" {
+			ent.SigAlg = "RSAwithSHA256"
+		}
+		d := core.NewDir()
+		d.Put(ent.File, ent.Render())
+		d.Put("e.pem", buf.Bytes())
+		res := core.Run(d, core.FlagAll)
+		if !res.OK() {
+			return core.Failf("C17/dir-import-run-failed", "run over a directory holding the artifact file (hash=%v order=%v, key %s) failed: %s", c.HashLine, c.Order, want.Describe(), res.String())
+		}
+		dec, derr := readEntity(d, &ent)
+		if derr != nil || dec.Key == nil || !dec.Key.Same(want) {
+			return core.Failf("C17/dir-import-key-lost", "artifact file (hash=%v order=%v, %d bytes) holds a %s key, but after a run the file holds a different or no key (%v)", c.HashLine, c.Order, buf.Len(), want.Describe(), derr)
+		}
 		var out bytes.Buffer
 		if err := cert.WritePrivateKeyToPem(pc.PrivateKey, &out); err != nil {
 			return core.Failf("C17/file-key-rewrite", "key cannot be written again: %v", err)
@@ -426,7 +442,7 @@ func TestC17(t *testing.T) {
 			}
 		}
 		c.CertDER, c.CSRDER = goCertAndCSR(t)
-		alg := rapid.SampledFrom([]string{"RSA-1024", "RSA-2048", "P-224", "P-256", "P-384", "P-521",
+		alg := rapid.SampledFrom([]string{"RSA-1024", "RSA-2048", "RSA-4096", "P-224", "P-256", "P-384", "P-521",
 			"brainpoolP256r1", "brainpoolP384r1", "brainpoolP512r1", "brainpoolP256t1", "brainpoolP384t1", "brainpoolP512t1"}).Draw(t, "keyalg")
 		c.KeyDER = pkcs8ForAlg(t, alg, "filekey")
 		if rapid.Bool().Draw(t, "handcsr") {
